@@ -147,6 +147,43 @@ def op_task(t):
     return dict(op=op, n=n, distinct=len(distinct), violations=viols, sample=sample)
 
 
+# every response code registered by RFC 5804 (1.3): whatever the refusal says, the call has put exactly one command on the wire
+RESPONSE_CODES = ["AUTH-TOO-WEAK", "ENCRYPT-NEEDED", "QUOTA", "QUOTA/MAXSCRIPTS", "QUOTA/MAXSIZE", 'REFERRAL "sieve://other.example.org"', "SASL \"abc=\"",
+                  "TRANSITION-NEEDED", "TRYLATER", "ACTIVE", "NONEXISTENT", "ALREADYEXISTS", 'TAG "x"', "WARNINGS", "X-UNKNOWN"]
+
+
+def refusal_task(op):
+    viols = []
+    n = 0
+    distinct = set()
+    for code in [None] + RESPONSE_CODES:
+        for action_kind in ("NO", "BYE"):
+            for val in ("a", 'q"x'):
+                for args, expected in calls_for(op, val):
+                    if code is None:
+                        action = action_kind
+                    elif action_kind == "NO":
+                        action = "NO:" + code
+                    else:
+                        continue
+                    srv = refms.RefServer(store={"a": b"keep;\r\n"}, active="a", version=True, faults=[(VERB[op], 0, action)])
+                    s = wire.open_session(srv)
+                    m = wire.mark(s)
+                    o = s.call(op, *args)
+                    data = wire.written_since(s, m)
+                    n += 1
+                    bad = judge(op, expected, data, o)
+                    if bad is None and srv.violations:
+                        bad = ("protocol-violation", srv.violations[0])
+                    distinct.add((code, action_kind, bad[0] if bad else None, o.kind))
+                    if bad:
+                        viols.append({"property": "C08", "engine": "wire", "signature": ["C08", op + "/refused", str(code).split(" ")[0], bad[0]],
+                                      "what": "%s%r answered %s wrote %r: %s" % (op, args, action, data[:80], bad[1]),
+                                      "case": {"op": op, "refusal": action, "args": list(args)},
+                                      "witness": "%s%r answered %s" % (op, args, action), "observed": repr(data[:100])})
+    return dict(op=op + "-refused", n=n, distinct=len(distinct), violations=viols, sample=None)
+
+
 def lookalike(body):
     """the name that equals the literal encoding of a script body"""
     return "{%d+}\r\n%s" % (len(body.encode("utf-8")), body)
@@ -321,6 +358,7 @@ def run(tier, seed):
             sw.append((op, lo, min(top, lo + 500)))
     res += pool.run_tasks("checks.c08:sweep_task", sw, chunksize=2)
     res += pool.run_tasks("checks.c08:write_fault_task", WRITE_FAULT_CALLS)
+    res += pool.run_tasks("checks.c08:refusal_task", [op for op in ops if op in VERB])
     res += pool.run_tasks("checks.c08:after_refusal_task", [0], force_pool=True)
     nb = len([v for v in values(maxlen - 1) if _encodable([v])])
     res += pool.run_tasks("checks.c08:pair_task", [(lo, lo + 16, maxlen - 1) for lo in range(0, nb, 16)])
@@ -344,6 +382,8 @@ def replay(payload):
     if "sweep_len" in c:
         r = sweep_task((op, c["sweep_len"], c["sweep_len"] + 1))
         return r["violations"]
+    if c.get("refusal"):
+        return [v for v in refusal_task(op)["violations"] if v["case"] == c]
     if c.get("after_refusal"):
         return [v for v in after_refusal_task(0)["violations"] if v["signature"] == payload["signature"]]
     if c.get("write_fault"):
